@@ -448,6 +448,34 @@ func runLeg(l leg, tier string, batch uint64, workers int, scratch string) (*leg
 				}
 			}
 			if got == nil || got.Invariant != want.Invariant {
+				// It may need what EARLIER runs of the worker left behind (a cache of
+				// the code under test): re-run suffixes of the worker's run history
+				// in one fresh process.
+				var hist []uint64
+				for x := uint64(i); x <= stt.Idx; x += uint64(shards) {
+					hist = append(hist, x)
+				}
+				histFound := false
+				for _, L := range []int{2, 3, 5, 9, 17, 33, 129, len(hist)} {
+					if L > len(hist) {
+						L = len(hist)
+					}
+					cand := hist[len(hist)-L:]
+					g, at, pl, ok := runHistory(l, dir, tier, batch, cand)
+					if ok && g != nil && at == stt.Idx && g.Invariant == want.Invariant {
+						deathSeen[want.Invariant] = true
+						lr.violations = append(lr.violations, violation{Scenario: l.scenario, Build: info.Build, Binary: l.binary, Seed: stt.Seed, Fail: g, Plan: pl, Death: true,
+							History: &engine.History{Tier: tier, Indices: cand, Note: "the plan of the last run does not fail in a fresh process; the report needs the state left behind by the earlier runs listed here (same process, in this order)"}})
+						histFound = true
+						break
+					}
+					if L == len(hist) {
+						break
+					}
+				}
+				if histFound {
+					continue
+				}
 				// A genuine report (the worker's own log is the evidence) that no
 				// fresh process reproduces. Do not abort the batch: other legs may
 				// decide the same defect deterministically.
@@ -501,6 +529,16 @@ func runHistory(l leg, dir string, tier string, batch uint64, indices []uint64) 
 	cmd.Env = childEnv(l.info, hd, "GOMAXPROCS=2")
 	r := runProc(cmd, filepath.Join(hd, "status-0"), 3600*time.Second)
 	if r.kind != "" || r.exit != 0 {
+		// the process died: a death during an in-flight library call (a race
+		// report, an abort) is an outcome of the history as well
+		stderr := r.output
+		if b, err := os.ReadFile(filepath.Join(hd, fmt.Sprintf("race.%d", r.pid))); err == nil {
+			stderr += string(b)
+		}
+		if df := deathFailure(l.info, deathKind(r), r.exit, stderr, r.status); df != nil {
+			pj, _ := json.Marshal(l.info.Sc.Generate(r.status.Seed, tierFor(tier, r.status.Idx)))
+			return df, r.status.Idx, pj, true
+		}
 		return nil, 0, nil, false
 	}
 	b, err := os.ReadFile(filepath.Join(hd, "result-0.json"))
